@@ -5,13 +5,16 @@ TS_GHOST = {'TokenStore': {'g_off': 'IARR', 'g_view': 'IARR', 'g_vlen': 'INT', '
 
 UNITS = [
     Unit('l0.observers', ['token_store.py'], 'l0_token_store.py',
-         [('TokenStore', 'get_index'), ('TokenStore', 'get_next'), ('TokenStore', 'get_prev'), ('TokenStore', 'get_first'),
+         [(None, '_check_store_handle'), ('TokenStore', 'get_index'), ('TokenStore', 'get_next'), ('TokenStore', 'get_prev'), ('TokenStore', 'get_first'),
           ('TokenStore', 'get_last'), ('TokenStore', '__len__'), ('TokenStore', '__iter__'), ('TokenStore', 'iter')],
          props=['C07', 'C04'], typevars={'_T': 'Token'}, ghost=TS_GHOST),
     Unit('l0.structure', ['token_store.py'], 'l0_token_store.py',
          [('TokenStore', '_update_block_indexes'), ('_StoreBlock', 'rebuild'), ('TokenStore', '_merge_blocks'), ('TokenStore', '_splice'), ('TokenStore', '_update_block'),
           ('_StoreBlock', 'from_tokens'), (None, '_build_blocks'), ('TokenStore', '_split_block'), ('TokenStore', '__init__'), ('TokenStore', 'from_tokens')],
          props=['C07'], typevars={'_T': 'Token'}, ghost=TS_GHOST),
+    Unit('l0.mutators', ['token_store.py'], 'l0_token_store.py',
+         [('TokenStore', 'splice'), ('TokenStore', 'insert_after'), ('TokenStore', 'insert_before'), ('TokenStore', 'replace'), ('TokenStore', 'remove')],
+         props=['C07', 'C19'], typevars={'_T': 'Token'}, ghost=TS_GHOST),
     Unit('l0.caches', ['token_store.py'], 'l0_token_store.py', [('_StoreBlock', 'rebuild'), ('_StoreBlock', 'from_tokens')], lemmas=['fold_frame'], aspect='cache',
          props=['C08'], typevars={'_T': 'Token'}, ghost=TS_GHOST),
 ]
